@@ -757,6 +757,11 @@ def locate_cases(draw):
             for row in rowsel:
                 if typ == "int":
                     m.append([int(x) for x in row])
+                elif "int" in (t1, t2):
+                    # integer table against float rows: fractional values next to the integers (2.5 is not 2)
+                    m.append([(-0.0 if (x == 0 and draw(st.booleans())) else
+                               float(x) + draw(st.sampled_from([0.0, 0.0, 0.0, 0.5, -0.25, 1e-9])))
+                              for x in row])
                 else:
                     m.append([(-0.0 if (x == 0 and draw(st.booleans())) else float(x))
                               for x in row])
